@@ -153,6 +153,7 @@ class Engine:
         self.notes = []
         self.heap_log = []        # (op, obj, detail) for frame checks
         self.loop_guard = None
+        self._loop_rng = {}
         # solver answers of the run this one was forked from: a child run repeats its parent's queries up to the
         # fork point (execution is deterministic), so those answers are replayed instead of recomputed
         self.replay = list(replay or [])
@@ -879,12 +880,19 @@ class Engine:
         if isinstance(cur, (SSeq, bytes, tuple)):
             k, e = ops.seq_kind(cur), ops.seq_elem(cur)
             if e in ("int", "bytes"):
-                return self.fresh_seq(name, k, e)
+                nv = self.fresh_seq(name, k, e)
+                r = ops.seq_rng(cur)
+                if e == "int" and r not in (None, "empty"):
+                    nv.rng = r            # element range is kept as part of the invariant; re-checked at the back edge
+                    self._loop_rng[name] = r
+                return nv
         if cur is None or cur is _UNBOUND:
             return _UNBOUND
         raise Unsupported("cannot havoc loop variable %s = %r (give a type in the loop spec)" % (name, cur))
 
     def fresh_of(self, desc, name):
+        if callable(desc):
+            return desc(self)
         if desc == "int":
             return self.fresh_int(name)
         if desc == "bool":
@@ -1015,6 +1023,13 @@ class Engine:
                 return            # leaves the loop: continue after it with the current state
         finally:
             self.loop_guard = prev_guard
+        for name, r in list(self._loop_rng.items()):
+            nv = fr.locals.get(name, _UNBOUND)
+            r2 = ops.seq_rng(nv) if nv is not _UNBOUND else None
+            if nv is _UNBOUND or r2 == "empty":
+                continue
+            if r2 is None or r2[0] < r[0] or r2[1] > r[1]:
+                raise Unsupported("loop body does not keep the element range %r of %s" % (r, name))
         if is_for:
             nxt = mk_int(i.t + 1)
         elif is_dict:
@@ -1674,6 +1689,10 @@ class Engine:
             j, ok = ops.norm_index(key, n)
             if not self.decide(ok):
                 self.raise_exc(IndexError, "list index out of range")
+            from pyvc import lib
+            h = lib.symbolic_slot_hook(self, base, j)
+            if h is not NotImplemented:
+                return h
             k = self.choose([mk_bool(j == p) for p in range(n)])
             return self.slot_read(base, k)
         if isinstance(base, (tuple, list)) and not isinstance(key, int):
